@@ -169,6 +169,8 @@ class Scheduler:
             raise HarnessError("unmanaged thread would block on %s" % what)
         if self.aborting:
             raise AbortExecution()
+        if pred():
+            return True       # nothing to wait for
         me.status = BLOCKED
         me.pred = pred
         me.tmode = tmode
